@@ -31,7 +31,7 @@ def all_outs(e):
 def producer_map(g):
     p = {}
     for e in g['edges']:
-        for o in all_outs(e):
+        for o in all_outs(e) + (list(e.get('dd_outs', [])) if e.get('dd') else []):
             p[o] = e
     return p
 
@@ -44,6 +44,11 @@ def rspfile_path(e):
     return key(e) + ".rsp" if e.get('rsp') is not None else None
 
 
+def is_restat(e):
+    """restat from the manifest or added by the statement's dyndep file"""
+    return bool(e.get('restat') or (e.get('dd') and e.get('dd_restat')))
+
+
 def dd_inputs(g, e):
     """implicit inputs that a (valid, loaded) dyndep file adds to e"""
     return list(e.get('dd_ins', [])) if e.get('dd') else []
@@ -51,6 +56,24 @@ def dd_inputs(g, e):
 
 def dd_outs(g, e):
     return list(e.get('dd_outs', [])) if e.get('dd') else []
+
+
+def dyndep_text(g, dd):
+    """the (valid) content of dyndep file dd for graph g: one statement per build statement bound to it"""
+    L = ["ninja_dyndep_version = 1\n"]
+    for e in g['edges']:
+        if e.get('dd') != dd:
+            continue
+        l = "build %s" % key(e)
+        if e.get('dd_outs'):
+            l += " | " + " ".join(e['dd_outs'])
+        l += ": dyndep"
+        if e.get('dd_ins'):
+            l += " | " + " ".join(e['dd_ins'])
+        L.append(l + "\n")
+        if e.get('dd_restat'):
+            L.append("  restat = 1\n")
+    return "".join(L)
 
 
 def true_reads(g, e, phony_outs):
@@ -370,8 +393,8 @@ class Make:
                 continue
             runs.append(k)
             for o in all_outs(e) + dd_outs(g, e):
-                same = e['restat'] and o in files and files[o]['c'] == cont.expected(o)
-                if e['restat'] and o in files and k in assume_flip:
+                same = is_restat(e) and o in files and files[o]['c'] == cont.expected(o)
+                if is_restat(e) and o in files and k in assume_flip:
                     same = not same
                 rewritten[o] = not same
         return dict(run=runs, error=None, why=why, disc=disc_used, reached=reached, ignored=ignored, trusted=trusted)
@@ -387,7 +410,7 @@ class Make:
             if o not in files:
                 return True, 'output %s missing' % o
             r = self.rec.get(o)
-            if not (e['restat'] and r) and files[o]['m'] < newest_input:
+            if not (is_restat(e) and r) and files[o]['m'] < newest_input:
                 return True, 'output %s older than input' % o
             if r is None:
                 if not e['generator']:
@@ -403,8 +426,8 @@ class Make:
     def fold_success(self, g, e, lock_tick, wrote, files_after, hidden_written):
         outs = all_outs(e) + dd_outs(g, e)
         t = lock_tick
-        if e['restat'] or e['generator']:
-            if e['generator'] and not e['restat']:
+        if is_restat(e) or e['generator']:
+            if e['generator'] and not is_restat(e):
                 t = max([t] + [files_after[o]['m'] for o in outs if o in files_after])
             elif set(outs) <= set(wrote):
                 t = max([t] + [files_after[o]['m'] for o in outs if o in files_after])
